@@ -31,7 +31,12 @@ func (where Where) Build(builder Builder) {
 	for idx, expr := range where.Exprs {
 		if v, ok := expr.(OrConditions); !ok || len(v.Exprs) > 1 {
 			if idx != 0 {
-				where.Exprs[0], where.Exprs[idx] = where.Exprs[idx], where.Exprs[0]
+				// swap in a copy: the expression slice is shared with the handle the
+				// chain was derived from and with every other chain derived from it
+				exprs := make([]Expression, len(where.Exprs))
+				copy(exprs, where.Exprs)
+				exprs[0], exprs[idx] = exprs[idx], exprs[0]
+				where.Exprs = exprs
 			}
 			break
 		}
